@@ -1,10 +1,11 @@
 #!/bin/bash
 # Build the Coq development: regenerate _CoqProject file list and Makefile, then make the given targets.
 # usage: coq/mk.sh [make-args...]     (run from anywhere)
-cd "$(dirname "$0")" || exit 2
+SELF="$(readlink -f "$0")"
+cd "$(dirname "$SELF")" || exit 2
 mkdir -p ../build
 # one build at a time (several checks / developers share this directory)
-if [ -z "$DC_MK_LOCKED" ]; then export DC_MK_LOCKED=1; exec flock ../build/mk.lock "$0" "$@"; fi
+if [ -z "$DC_MK_LOCKED" ]; then export DC_MK_LOCKED=1; exec flock ../build/mk.lock "$SELF" "$@"; fi
 {
   cat _CoqProject.head
   find base gen model proofs props -name '*.v' | LC_ALL=C sort
